@@ -60,6 +60,15 @@ LawEvent(e) ==
     /\ IF "gO" \in DOMAIN e
        THEN Check(e.gO[1] = e.gO[2], "C13", "OverlayAsLayer", l, [k |-> e.gO[3]])
        ELSE TRUE
+    \* "topmost first": where the topmost visible layer covering a position is a Normal layer holding a cell without a
+    \* transparent colour, that cell is what is shown (a direct reading of the statement; everything subtler is model layer)
+    /\ LET TopBad(S, Obs(_)) == {p \in P : LET cov == Covering(S, p) IN
+                                   cov # {} /\ LET t == MaxOf(cov) c == CellAt(S[t], p) IN S[t].m = NORMAL /\ Vis(c) /\ ~HasT(c) /\ Obs(p) # c}
+           ba == TopBad(A, ObsA)
+           bb == TopBad(B, ObsB) IN
+       IF ba = {} /\ bb = {} THEN TRUE
+       ELSE LET p == CHOOSE x \in (ba \cup bb) : TRUE IN
+            Viol("C13", "TopmostCellShown", l, [op |-> tr.op, p |-> p, n |-> Cardinality(ba) + Cardinality(bb), obs |-> IF p \in ba THEN ObsA(p) ELSE ObsB(p)])
     /\ BumpBy(11, Cardinality(claims))
     /\ BumpBy(12, 2 * Cardinality(P))
     /\ IF badA = {} THEN TRUE
